@@ -56,19 +56,28 @@ def run(pid, tier, runs, modname, fname, assumptions, rule, sample_fn=None, extr
     for r in runs:
         if only and r.get('name') not in only.split(','):
             continue
-        cases, st = tlc.run_sharded(r['module'], r['constants'], r.get('nshards', 16), tag=r.get('name', 'g'),
-                                    invariants=[r.get('emit', 'Emit')] + list(r.get('invariants', [])),
-                                    init=r.get('init', 'Init'), next_=r.get('next', 'Next'),
-                                    properties=r.get('properties', []), constraints=r.get('constraints', []),
-                                    timeout=r.get('timeout', 3600))
-        states += st['distinct']
-        trans += st['generated']
-        ncases += len(cases)
-        per_run[r.get('name', 'g')] = len(cases)
-        if cases:
-            c = cases[len(cases) // 2]
-            samples.append(sample_fn(c) if sample_fn else _trim(c))
-        replay_cases(cases, modname, fname, rep, artifacts=artifacts)
+        # data salts (spec/Salt.tla): the quick tier uses VERIF_SEED (default 0), the thorough tier in addition the next
+        # salts, i.e. the same configurations over different integer data
+        base = common.seed()
+        salts = r.get('salts') or ([base] if tier == 'quick' else [base + k for k in range(r.get('nsalts', 3))])
+        for salt in salts:
+            cases, st = tlc.run_sharded(r['module'], r['constants'], r.get('nshards', 16), tag=r.get('name', 'g'),
+                                        invariants=[r.get('emit', 'Emit')] + list(r.get('invariants', [])),
+                                        init=r.get('init', 'Init'), next_=r.get('next', 'Next'),
+                                        properties=r.get('properties', []), constraints=r.get('constraints', []),
+                                        timeout=r.get('timeout', 3600), salt=salt)
+            states += st['distinct']
+            trans += st['generated']
+            ncases += len(cases)
+            key = r.get('name', 'g') + ('' if salt == base else '+salt%d' % salt)
+            per_run[key] = len(cases)
+            if cases and salt == base:
+                c = cases[len(cases) // 2]
+                samples.append(sample_fn(c) if sample_fn else _trim(c))
+            for c in cases:
+                if isinstance(c, dict):
+                    c['_salt'] = salt
+            replay_cases(cases, modname, fname, rep, artifacts=artifacts)
     cov = dict(states=states, transitions=trans, traces_validated_against_impl=ncases, cases_per_run=per_run,
                samples=samples, rule=rule, exhaustive=True,
                checker_cmd='tlc -workers 1 (sharded) on spec/%s ; python replay %s:%s' % (
